@@ -32,6 +32,7 @@ var skeletonFuncs = []string{
 	"gzipReader.Read", "gzipWriter.Close", "CompressorGzip.Compress", "CompressorGzip.Decompress", "streamGRPC.compress", "streamGRPC.decompress",
 	"streamHTTP.SendHeader", "streamGRPC.SendHeader", "muxOptions.unary", "muxOptions.stream", "inPayload", "outPayload",
 	"isStreamError", "HTTPHandlerOption", "MuxHandleOption", "NewServer", "Mux.ServeHTTP",
+	"AddHealthz", "TLSCredsOption", "NewMux",
 }
 
 func leanIdent(fn string) string {
@@ -41,6 +42,13 @@ func leanIdent(fn string) string {
 // skeleton lists, in source order, every branching condition, loop header and
 // return/panic statement of fn (rendered from the AST).
 func skeleton(g *genCtx, fd *ast.FuncDecl) (conds []string, sites []string) {
+	// the signature first: receiver (by value or by pointer matters), parameters, results
+	sig := "func "
+	if fd.Recv != nil && len(fd.Recv.List) == 1 {
+		sig += "(" + nodeSrc(g, fd.Recv.List[0].Type) + ") "
+	}
+	sig += fd.Name.Name + strings.TrimPrefix(nodeSrc(g, fd.Type), "func")
+	conds = append(conds, sig)
 	ast.Inspect(fd.Body, func(n ast.Node) bool {
 		switch t := n.(type) {
 		case *ast.IfStmt:
@@ -146,6 +154,7 @@ var stmtFuncs = []string{
 	"HTTPHandlerOption", "MuxHandleOption", "NewServer", "Mux.ServeHTTP",
 	"variable.index", "path.search", "path.match", "CodecProto.ReadNext", "CodecJSON.ReadNext", "codecHTTPBody.ReadNext", "params.set",
 	"Mux.serveGRPCWeb", "decodeTimeout", "lexPath",
+	"AddHealthz", "TLSCredsOption", "NewMux", "ruleSelector.getRules", "ruleSelector.setRules",
 }
 
 // writerOrder: the order of lock / load / modify / store / unlock in a writer function
